@@ -81,6 +81,10 @@ pub trait IndRef: Send + Sync {
 	/// the documented signals, evaluated on the values the indicator itself returned
 	fn signals(&mut self, c: &RC, own: &[f64]) -> Vec<Sig>;
 	fn box_clone(&self) -> Box<dyn IndRef>;
+	/// input class of the step just evaluated by `values` (part of failure signatures), e.g. "flat-window"
+	fn class(&self) -> &'static str {
+		""
+	}
 }
 impl Clone for Box<dyn IndRef> {
 	fn clone(&self) -> Self {
